@@ -164,7 +164,7 @@ class RefSim:
                 tot += v
         return tot / self.dt
 
-    def eval_pars(self, state, ti, linkvals=None, only_flow_dependent=False, known=None):
+    def eval_pars(self, state, ti, linkvals=None, only_flow_dependent=False, known=None, snap=None):
         """parameter values at index ti from the given state; parameters depending on flows need linkvals (else they are left out)"""
         t = float(self.t[ti])
         vals = {pop: {} for pop in self.pops} if known is None else known
@@ -244,6 +244,12 @@ class RefSim:
                     v = p["min"]
                 if p.get("max") is not None and v > p["max"]:
                     v = p["max"]
+                if snap is not None:
+                    # one-step mode: where the value agrees with the given one to 1e-9, continue with the given one, so that
+                    # dependents are evaluated from the same inputs (a -1e-17 instead of 0 under a square root is not a rule difference)
+                    w = snap.get(pop, {}).get(name)
+                    if w is not None and (v == w or (math.isfinite(v) and math.isfinite(w) and abs(v - w) <= 1e-9 * max(1.0, abs(v), abs(w)))):
+                        v = w
                 vals[pop][name] = v
         if not only_flow_dependent:
             for (pop, pname), e in self.transfer_pars.items():
